@@ -244,7 +244,7 @@ func (m *Monitors) classify(n *Node, msg *ref.Msg, pre preState) string {
 			nm.prepares[key][msg.Sender.Id] = true
 		}
 	case ref.EnvC:
-		seedOK := w.Keys.VerifyShare(msg.Sender.Id, msg.H, w.SeedBytes(msg.H), msg.Share)
+		seedOK := w.Keys.VerifyShare(msg.Sender.Id, msg.H, w.SeedBytesFor(n, msg.H), msg.Share)
 		if !seedOK {
 			set("bad-random-seed-share")
 		}
@@ -411,6 +411,15 @@ func (m *Monitors) judgeFuture(n *Node, nm *nodeMon, h, v uint64) {
 	}
 }
 
+// SeedBytesFor is the seed node n verifies COMMIT shares of height h against: the one all proofs of h-1 carry, unless the node
+// entered h by a sync without proof (then the seed of an absent signature: no share of a member that holds the proof fits it).
+func (w *World) SeedBytesFor(n *Node, h uint64) []byte {
+	if n != nil && n.NoProofAt[h] {
+		return seedBytes(nil)
+	}
+	return w.SeedBytes(h)
+}
+
 func (m *Monitors) PreDelivery(n *Node, f *Flight) *deliveryCtx {
 	d := m.PreStep(n)
 	d.f = f
@@ -472,6 +481,11 @@ func (m *Monitors) PostDelivery(d *deliveryCtx, effects []spi.Event, panicked bo
 			if e.Node == n.Id && isEffect(e) {
 				if strings.HasPrefix(d.mustIgn, "invalid-new-view") {
 					m.violate("C07", "influenced-by-invalid-new-view", "node %s (h=%d v=%d) was influenced (%s h=%d v=%d) by a NEW_VIEW that is not a valid certificate: %s", n.Id, d.pre.H, d.pre.V, e.Kind, e.H, e.V, d.mustIgn)
+					if strings.Contains(d.mustIgn, "authentic distinct votes below quorum weight") {
+						// the VIEW_CHANGEs nested in it were counted toward a quorum although those that verify under their claimed senders' keys
+						// (distinct committee members, this instance, height and view) do not reach it
+						m.violate("C08", "unauthentic-votes-inside-a-new-view-counted", "node %s (h=%d v=%d) was influenced (%s h=%d v=%d) by %s whose embedded VIEW_CHANGEs reach quorum weight only when votes that do not verify under their claimed sender's key (or repeat a sender, or come from outside the committee) are counted", n.Id, d.pre.H, d.pre.V, e.Kind, e.H, e.V, Describe(f))
+					}
 					break
 				}
 				m.violate("C08", "effect-of-must-ignore:"+ruleKey(d.mustIgn)+":"+msg.Env.String(), "node %s (h=%d v=%d) was influenced (%s h=%d v=%d) by %s that must be ignored: %s", n.Id, d.pre.H, d.pre.V, e.Kind, e.H, e.V, Describe(f), d.mustIgn)
@@ -1017,7 +1031,7 @@ func (m *Monitors) onStore(n *Node, nm *nodeMon, e *spi.Event) {
 	case *interfaces.CommitMessage:
 		h := msg.Content().SignedHeader()
 		hdrRaw, sig, typ, inst, want = h.Raw(), msg.Content().Sender().Signature(), h.MessageType(), uint64(h.InstanceId()), ref.C
-		if !w.Keys.VerifyShare(e.Sender, e.H, w.SeedBytes(e.H), msg.Content().Share()) {
+		if !w.Keys.VerifyShare(e.Sender, e.H, w.SeedBytesFor(n, e.H), msg.Content().Share()) {
 			bad("bad-random-seed-share", "stored a COMMIT (h=%d v=%d) from %q with an invalid share", e.H, e.V, e.Sender)
 		}
 	case *interfaces.ViewChangeMessage:
